@@ -125,7 +125,7 @@ func PubSub.sendWaitGroup
   opt logcalls send
   requires o != nil && wg != nil && ref(sub) != 0 && !chclosed(sub) && chowner(sub) == ref(o)
   exit_ensures[one-send] loglen(send) == 1 && logarg(send, 1, 0) == ev && logarg(send, 2, 0) == sub && logarg(send, 3, 0) == timeout
-  exit_ensures[done]     nacts(K_WGDone) == 1 && nacts(K_WGDone, wg) == 1 && actkind(nact - 1) == K_WGDone
+  exit_ensures[done]     nacts(K_WGDone) == 1 && nacts(K_WGDone, wg) == 1 && actkind(nact - 1) == K_WGDone && loglenbefore(send, nact - 1) == 1
   assigns chans
 
 // The synchronous publishers: under the read lock, exactly one send call per subscribed channel, in subscription
